@@ -349,7 +349,10 @@ OSS_RULE = ("A: every history of <= MaxLen calls on an operation schema and its 
             "Replayed on a real OSSchema with upstream's FakeSourceManager as environment: structure invariants after every call "
             "(two distinct existing parents, acyclic, one grid cell, one handle, only leaves erased), after every successful Execute the "
             "stored result against ops::BinarySynthes on the parents' current schemas and the user's additions carried over, and for "
-            "every operation that reports done the same comparison once everything has been announced.  non-trivial = >= 2 calls. ")
+            "every operation that reports done the same comparison once everything has been announced.  Reload = the document is saved, "
+            "the schema object and its sources are closed, the document is loaded with its items rotated and the sources are re-opened: "
+            "nothing may change.  non-trivial = >= 2 calls.  B: random histories of 40 calls over up to 7 pictograms recorded from the "
+            "real OSSchema and validated call by call by Trace_OSS (view = model's view, Structure, Fresh). ")
 
 
 def plan_C19(ctx):
@@ -366,6 +369,8 @@ def plan_C19(ctx):
         ctx.constants[cfg] = open(os.path.join(vcore.TLA, cfg)).read().split("SPECIFICATION")[0].split()
         ctx.replay("Gen_OSS.tla", cfg, h, [], tag=cfg[:-4], timeout=3400, xss="64m", xmx="16g")
     ctx.exhaustive = True
+    ntr = 40 if ctx.quick else 400
+    trace_stage(ctx, h, ["--record", str(ntr), "--steps", "40"], "Trace_OSS.tla", "Trace_OSS.cfg", n_traces=ntr)
 
 
 MODEL_RULE = ("A: every history of <= MaxLen calls of AddBasicElement / SetBasicText (incl. same-size replacements with other keys) / "
@@ -429,7 +434,7 @@ HARNESS_OF = {"C14": "h_graph", "C20": "h_strings", "C16": "h_sdcompact", "C15":
 TRACE_SPEC_OF = {"C14": ("Trace_C14.tla", "Trace_C14.cfg"), "C20": ("Trace_C20.tla", "Trace_C20.cfg"),
                  "C16": ("Trace_C16.tla", "Trace_C16.cfg"), "C15": ("Trace_C15.tla", "Trace_C15.cfg"),
                  "C17": ("Trace_C17.tla", "Trace_C17.cfg"), "C04": ("Trace_C04.tla", "Trace_C04.cfg"),
-                 "C13": ("Trace_Schema.tla", "Trace_Ops.cfg"), "C07": ("Trace_Schema.tla", "Trace_Schema.cfg"), "C09": ("Trace_Schema.tla", "Trace_Schema.cfg")}
+                 "C13": ("Trace_Schema.tla", "Trace_Ops.cfg"), "C19": ("Trace_OSS.tla", "Trace_OSS.cfg"), "C07": ("Trace_Schema.tla", "Trace_Schema.cfg"), "C09": ("Trace_Schema.tla", "Trace_Schema.cfg")}
 
 
 def replay(pid, path):
